@@ -177,7 +177,7 @@ class Models:
             return Enum(segs[-2], self.STD_ENUMS[segs[-2]][segs[-1]], segs[-1], list(ops))
         if len(segs) == 1 and not ops:
             # rustc prints some external field-less variants by their bare name (e.g. chrono's `Micros`)
-            owners = [en for en, vs in self.STD_ENUMS.items() if segs[0] in vs and en in ('SecondsFormat',)]
+            owners = [en for en, vs in self.STD_ENUMS.items() if segs[0] in vs and en in ('SecondsFormat', 'Ordering')]
             if len(owners) == 1:
                 return Enum(owners[0], self.STD_ENUMS[owners[0]][segs[0]], segs[0], [])
         L = self.it.layouts
@@ -1224,19 +1224,52 @@ class Models:
         h = ty_head(pc.self_ty or '')
         return INT_TYS.get(h, (False, 64))[0]
 
+    def _user_partial_cmp(self, c, a, b, want):
+        """`a < b` etc. on a crate type are the provided methods of PartialOrd, i.e. the crate's own `partial_cmp` (also with a foreign
+        right-hand side such as `Bound > f64`): run that body when the MIR has one. -> bool, or None when there is no local impl"""
+        if not isinstance(deref(a), (Agg, Enum)) or not getattr(deref(a), 'ty', None):
+            return None
+        callee = re.sub(r'::(lt|gt|le|ge)$', '::partial_cmp', c)
+        cache = self.__dict__.setdefault('_user_pcmp_cache', {})
+        has = cache.get(callee)
+        if has is None:
+            try:
+                has = self.it.resolve(callee, [a, b], None)[0] == 'body'
+            except Exception:
+                has = False
+            cache[callee] = has
+        if not has:
+            return None
+        r = deref(self.it.call(callee, [a, b], None))
+        if r.discr == 0:          # None: incomparable
+            return False
+        return deref(r.f[0]).discr in want
+
     def m_PartialOrd__lt(self, c, a, b):
+        u = self._user_partial_cmp(c, a, b, (-1,))
+        if u is not None:
+            return u
         return val_lt(a, b, self._signed_of(c))
 
     def m_PartialOrd__gt(self, c, a, b):
+        u = self._user_partial_cmp(c, a, b, (1,))
+        if u is not None:
+            return u
         return val_lt(b, a, self._signed_of(c))
 
     def m_PartialOrd__le(self, c, a, b):
+        u = self._user_partial_cmp(c, a, b, (-1, 0))
+        if u is not None:
+            return u
         a, b = deref(a), deref(b)
         if isinstance(a, FV):
             return f_cmp('le', a, b)
         return b_not(val_lt(b, a, self._signed_of(c)))
 
     def m_PartialOrd__ge(self, c, a, b):
+        u = self._user_partial_cmp(c, a, b, (1, 0))
+        if u is not None:
+            return u
         a, b = deref(a), deref(b)
         if isinstance(a, FV):
             return f_cmp('ge', a, b)
@@ -2596,17 +2629,36 @@ class Models:
         r = self._merge_message_into(ty, ref_to(m), b.records)
         return Ok(m) if r.vname == 'Ok' else r
 
+    def _digest_of_blob(self, b):
+        """contract of SHA-256 content addressing: one symbolic 64-bit digest per hashed blob, equal to an earlier one iff the blobs are equal"""
+        reg = self.ctx.notes.setdefault('digests', [])
+        dig = z3.BitVec(f'digest{len(reg)}', 64)
+        for other, odig in reg:
+            self.ctx.assume((dig == odig) == z3bool(records_eq(b.records, other.records)))
+        reg.append((b, dig))
+        return dig
+
+    def m_Digest__from_buf_sha256(self, c, buf):
+        b = self._blob_of(buf)
+        n = len(self.ctx.notes.get('digests', []))
+        return SymString(f'sha256:<blob {n}>', self._digest_of_blob(b))
+
     def m_OciArtifactBuilder__add_layer(self, c, builder, media_type, blob, annotations):
         st = deref(builder)
         b = self._blob_of(blob)
         k = len(st.f[1].items)
-        dig = z3.BitVec(f'digest{k}', 64)
-        for j, (_, other, odig) in enumerate(st.f[2]):
-            self.ctx.assume((dig == odig) == z3bool(records_eq(b.records, other.records)))
+        dig = self._digest_of_blob(b)
         desc = Agg([deep_clone(deref(media_type)), SymString(f'sha256:<layer {k}>', dig), Some(deep_clone(deref(annotations)))], 'Descriptor')
         st.f[1].items.append(desc)
         st.f[2].append((desc, b, dig))
         return Ok(deep_clone(desc))
+
+    def m_OciArchiveBuilder__new_unnamed(self, c, path):
+        return Ok(Opaque('OciArchiveBuilder', 'unnamed'))
+
+    def m_OciArtifactBuilder__new(self, c, layout, artifact_type):
+        # contract: an empty artifact of the given artifact type over the given image layout
+        return Ok(Agg([Some(deep_clone(deref(artifact_type))), RVec([]), []], 'OciArtifactBuilder'))
 
     def m_OciArtifactBuilder__build(self, c, builder):
         st = deref(builder)
